@@ -258,7 +258,22 @@ func checkUsageVerdicts(c *Check, sc *statusConsts) {
 				}
 				c.Cond(stored["Status"] == "2" && stored["Time"] == "0" && stored["Memory"] == "1", "3/usage-verdict", "ptracer.trace:result-fields", p.Pos(call.Pos()), "status, time and memory of the usage check are stored in the result", fmt.Sprintf("result fields from the usage check: %v", stored))
 				conds := extraConds(controlDeps(tr), call.Block())
-				okMain := len(conds) == 1 && strings.Contains(conds[0], "pgid")
+				// the one condition compares the pid wait4 reported with the pid the launch returned
+				okMain := false
+				if len(conds) == 1 {
+					for _, d := range cdChain(controlDeps(tr), call.Block()) {
+						iff := blockIf(d.b)
+						if iff == nil || isLoopHeader(d.b) || isErrCheck(iff) {
+							continue
+						}
+						if bo, ok := iff.Cond.(*ssa.BinOp); ok && bo.Op == token.EQL && d.succ == 0 {
+							ox, oy := strings.Join(valueOrigins(bo.X), ","), strings.Join(valueOrigins(bo.Y), ",")
+							isWait := func(s string) bool { return strings.HasSuffix(s, ".Wait4") }
+							isStart := func(s string) bool { return strings.HasSuffix(s, ".Start") && !strings.Contains(s, ",") }
+							okMain = (isWait(ox) && isStart(oy)) || (isWait(oy) && isStart(ox))
+						}
+					}
+				}
 				c.Cond(okMain, "3/usage-verdict", "ptracer.trace:main-pid", p.Pos(call.Pos()), "usage is taken from the main process's rusage", "usage check runs under "+strings.Join(conds, ", "))
 				// early return on non-normal status
 				ret := false
